@@ -132,7 +132,7 @@ def c11_4(c: Ctx) -> None:
     if n_orig == 0:
         c.fail(u, 'no `raise <original error>`', 'raise_if_any=True no longer raises the recorded handler error')
     # error_results must be every result with an error (or exception result)
-    er = [n for n in own_nodes(u.node) if isinstance(n, (ast.Assign, ast.AnnAssign)) and isinstance((n.targets[0] if isinstance(n, ast.Assign) else n.target), ast.Name)
+    er = [n for n in own_nodes(q.comp_view(u.node)) if isinstance(n, (ast.Assign, ast.AnnAssign)) and isinstance((n.targets[0] if isinstance(n, ast.Assign) else n.target), ast.Name)
           and (n.targets[0] if isinstance(n, ast.Assign) else n.target).id == 'error_results']
     for n in er:
         v = n.value
